@@ -76,6 +76,25 @@ def same_code(base_text, ann_text, nonce=None):
     return "no removal of one `byte <nonce>; pop` pair makes the streams equal"
 
 
+def same_modulo_branches(base_text, ann_text):
+    """the two programs are the same sequence of instructions once b / bz / bnz are left out"""
+    def core(text):
+        return [(i.op, tuple(map(str, i.args))) for i in asm.assemble(text).instrs if i.op not in ("b", "bz", "bnz")]
+    try:
+        return core(base_text) == core(ann_text)
+    except Exception:
+        return False
+
+
+def is_compound(t):
+    """a conditional or loop statement (also as the last member of a Seq)"""
+    if not isinstance(t, list) or not t:
+        return False
+    if t[0] in ("If", "IfChain", "Cond", "While", "For"):
+        return True
+    return t[0] == "Seq" and len(t) > 1 and is_compound(t[-1])
+
+
 def differs_only_in_slot_ops(base_text, ann_text, nonce=None):
     """signature of the 'annotation between a store and its load keeps the slot optimiser from cancelling the pair'
     finding: without their store / load instructions (and without the nonce's push-and-pop) the two programs are
@@ -326,6 +345,8 @@ def check_variant(base_prog, base_text, ann_prog, cfg, out, meta, nonce=None, ag
                          # the known block-structure findings re-route branches; they never add or drop a
                          # CONDITIONAL branch (which pops its operand)
                          "cond_branches_equal": ncond(base_text) == ncond(text),
+                         "wrapped_is_compound": bool(meta.get("wrapped_is_compound")),
+                         "same_modulo_branches": same_modulo_branches(base_text, text),
                          "optimising_config": bool(cfg.scratch_slots) or (cfg.scratch_slots is None and cfg.version >= 9),
                          "differs_only_in_slot_ops": differs_only_in_slot_ops(base_text, text, nonce),
                          "loop_tail": bool(meta.get("loop_tail"))},
@@ -346,6 +367,7 @@ def _worker(items, base):
                     meta["wrapped_is_empty_seq"] = emits_nothing(get_at(prog["main"], path))
                     if kind in ("comment_after", "comment_before"):
                         meta["standalone_comment"] = True
+                        meta["wrapped_is_compound"] = is_compound(get_at(prog["main"], path))
                         meta["loop_tail"] = loop_tail(prog["main"], path)
                 if kind == "subname":
                     ann = copy.deepcopy(prog)
